@@ -108,10 +108,11 @@ def work(job: Any) -> Dict[str, Any]:
                 got = unpack_struct(cm, raw)
                 wrong = [(l.pname(), got[l.path], v[l.path]) for l in lay_o.leaves() if got[l.path] != v[l.path]]
                 bad = None
-                if wire != spec_encode(lay_n, v):
-                    bad = f"new encoder bytes {wire.hex()} != specified {spec_encode(lay_n, v).hex()}"
-                elif wrong:
+                if wrong:
                     bad = f"old C decoder reads {wrong[:3]} (field, got, encoded)"
+                    if wire != spec_encode(lay_n, v):
+                        bad += f"; the new version's real encoder emits {wire.hex()[:48]}.. instead of the specified {spec_encode(lay_n, v).hex()[:48]}.."
+                        kind = "cex"
                 elif not guard_ok:
                     bad = "old C decoder wrote outside its struct"
                 if kind == "wit":
